@@ -2485,6 +2485,11 @@ class MainProvider(ResolverMixin, BaseProvider):
             for obj_name in assoc_names:
                 ns = obj_name.namespace
                 instance_store = self.cimrepository.get_instance_store(ns)
+                if not instance_store.object_exists(obj_name):
+                    # Dangling reference: The associated instance has been
+                    # deleted. It cannot be returned, and it must not make
+                    # the other associated instances unreachable.
+                    continue
                 results.append(self._get_instance(
                     obj_name, instance_store,
                     INSTANCE_RETRIEVE_LOCAL_ONLY,
